@@ -90,7 +90,7 @@ func (c Config) valid() bool {
 	if c.NoCopy && !(c.Body == "json" || c.Body == "xml") {
 		return false
 	}
-	if c.Poll && (c.TLS || c.Net == "ws") {
+	if c.Poll && ((c.TLS && !tlsPollOn) || c.Net == "ws") {
 		// known findings C12/tls+poll and C12/ws+poll (known_findings.json): excluded from the
 		// search by construction, counted by the generators
 		return false
@@ -159,7 +159,7 @@ func genConfig(t *rapid.T) Config {
 			atomic.AddInt64(&excludedWSPoll, 1)
 			c.Poll = false
 		}
-		if c.TLS && c.Poll {
+		if c.TLS && c.Poll && !tlsPollOn {
 			// known finding: TLS together with poll mode; keep one of the two and count the exclusion
 			atomic.AddInt64(&excludedTLSPoll, 1)
 			if rapid.Bool().Draw(t, "keep_tls") {
@@ -298,7 +298,7 @@ func enum(tier string, yield func(Case)) {
 							cfg.CliSpell = "funcs"
 						}
 						count++
-						if cfg.TLS && cfg.Poll {
+						if cfg.TLS && cfg.Poll && !tlsPollOn {
 							atomic.AddInt64(&excludedTLSPoll, 1)
 							continue
 						}
@@ -330,6 +330,8 @@ var portSeq int64
 
 // excludedTLSPoll counts configurations dropped because of the known finding (TLS with poll).
 var excludedTLSPoll int64
+
+var tlsPollOn = os.Getenv("VERIF_C12_TLSPOLL") != ""
 
 // excludedWSPoll counts configurations dropped because of the known finding (ws with poll).
 var excludedWSPoll int64
